@@ -3,6 +3,16 @@
 import json
 
 CLAIMED = {
+    "C03": dict(
+        text="Lean 4: Props/C03.lean proves, for every one of the 24 dtypes (mem_all), that the closed-form promotion model is commutative, associative inside the standard's lattice (errors included), idempotent, nullable iff an operand is, string-isolated, scalar-stable, and that the reference law for comparisons/predicates is boolean. The tie is regenerated every run: result_type on all 576 pairs, promote() on all dtype x Python-scalar rows and the ~24k-row element-wise function x dtype-tuple outcome matrix are dumped from the running implementation into lean/Gen/*.lean and the Lean kernel re-checks (decide +kernel) the laws directly on the dumped tables, their equality with the model, and every matrix row against the reference law Ndx.fnLaw; all 13 824 n-ary triples, where() and 25 further functions are compared through the model driver.",
+        note="Trusted: Lean kernel (propext, Classical.choice, Quot.sound); the dumper harness/tables.py (enumerates the finite spaces by calling the public API on lazy and eager arrays); the reference law Ndx.fnLaw and closed-form NumPy promotion as my reading of the Array API / NumPy (validated against numpy.result_type through the implementation's own table). Shape/laziness independence is exercised on sampled ranks and eager values, not proved about the Python code.",
+        technique="Lean 4 proof: decide +kernel over exhaustively regenerated dtype tables + closed-form lattice theorems",
+        design_ref="§7 C03"),
+    "C17": dict(
+        text="Lean 4: Props/C17.lean proves that the reference law Ndx.fnLaw demands a TypeError for every string/non-string mix, numeric functions on strings/booleans, logical functions on numbers, bitwise functions on floats and wrong-kind Python scalars, for all 24 dtypes and all function classes, and never admits a foreign exception class. On every run the element-wise function x dtype-tuple outcome matrix (arrays and Python scalars in every position, operator spellings, lazy and eager) is dumped exhaustively from the implementation and each row is checked against fnLaw by the Lean kernel (Gen/FnDtype*.lean); 27 further functions x {24 dtypes, a user struct dtype} x {lazy, eager} are checked by the harness.",
+        note="Trusted: Lean kernel; the dumper; the function catalogue (harness/catalog.py) mapping public names to law classes; exception classes are mapped to {TypeError subclass, other}. Mixed boolean/number operands and integers passed to floating-point functions are treated as unspecified (result or TypeError allowed, foreign exceptions not).",
+        technique="Lean 4 proof: decide +kernel of the domain law over the exhaustively regenerated outcome matrix",
+        design_ref="§7 C17"),
     "C08": dict(
         text="Lean 4 theorems (Props/C08.lean): for every extent n>=0 and every slice inside the Array-API bounds the positions selected by the emitted ONNX Slice after index_normalise equal CPython's slice.indices (slice_axis_agree), plus the build-time rejection rules; the N-d composition (Slice, reverse-order Gathers, Unsqueeze), boolean-mask and integer-array selection are an executable Lean model checked against the implementation (traced static, traced symbolic, eager) and NumPy on an exhaustive one-axis space and sampled products.",
         note="Trusted: Lean kernel (axioms propext/Classical.choice/Quot.sound), the hand-written model and its ONNX Slice/Gather/Unsqueeze/Compress semantics (validated against onnxruntime by the correspondence run), NumPy as oracle, the Python harness. N-d composition is tied by correspondence, not yet by a theorem.",
